@@ -350,3 +350,35 @@ Qed.
 
 Print Assumptions history_reload.
 Print Assumptions history_runs.
+
+(* ---- C12 on real trees: the enabled flag, the `if false` wrapper in the rendered script and what a reload sees agree *)
+
+Lemma load_from_flags : forall np dp ns cpt reqs,
+  Forall (fun f => lf_enabled f = negb (is_if_false (lf_content f))) (snd (load_from np dp cpt ns reqs)).
+Proof.
+  intros np dp ns. induction ns as [|n r IH]; intros cpt reqs; cbn [load_from]; [constructor|].
+  destruct (is_require n); [apply IH|].
+  destruct (fold_left (load_comment np dp) (node_comments n) (unnamed cpt, [])) as [name desc].
+  specialize (IH (cpt + 1)%N reqs). destruct (load_from np dp (cpt + 1) r reqs) as [rq fs]. cbn [snd] in *.
+  constructor; [reflexivity|exact IH].
+Qed.
+
+Corollary history_flags_agree : forall loaded st name_pre desc_pre fuel,
+  reach loaded st -> b_set st <> [] -> 5 <= fuel ->
+  marker_ok name_pre -> marker_ok desc_pre -> names_ok name_pre desc_pre (b_set st) ->
+  exists text ns lfs,
+    b_render gen_tables loaded fuel name_pre desc_pre st = BOk text /\
+    parse gen_tables text = Accept ns /\
+    snd (from_parser_result name_pre desc_pre ns) = lfs /\
+    map (fun f => negb (is_if_false (lf_content f))) lfs = map f_enabled (b_set st).
+Proof.
+  intros loaded st np dp fuel H Hne Hf Hnp Hdp Hn.
+  destruct (history_reload loaded st np dp fuel H Hne Hf Hnp Hdp Hn) as (text & ns & lfs & Hr & Hp & Hl & Hm).
+  exists text, ns, lfs. split; [exact Hr|]. split; [exact Hp|]. split; [rewrite Hl; reflexivity|].
+  pose proof (load_from_flags np dp ns 1%N []) as Hfl. unfold from_parser_result in Hl. rewrite Hl in Hfl. cbn [snd] in Hfl.
+  apply (f_equal (map (fun t : bytes * bytes * bool => snd t))) in Hm. rewrite !map_map in Hm. cbn [snd] in Hm.
+  transitivity (map lf_enabled lfs); [|exact Hm].
+  clear - Hfl. induction Hfl as [|f l Hf _ IH]; [reflexivity|]. cbn [map]. rewrite Hf, IH. reflexivity.
+Qed.
+
+Print Assumptions history_flags_agree.
